@@ -57,7 +57,7 @@ P = {
          "metas, dump vs the Spec snapshot of the reader, decoder accounting, Tx.Check.",
          "Truly concurrent writer goroutines are not used (interleaving is at chunk boundaries of the copy); remaps during a backup are avoided (they would wait for the backup's own reader).", "DESIGN.md §8 C14"),
  "C19": ("The reference verdict is computed by the independent decoder; its accounting part is proved EXACT (sound and complete): it accepts precisely the files in which every id below the mark is reachable once, part "
-         "of the freelist page, or listed free once. Tie: Tx.Check and `bbolt check` (exit status) vs that verdict on consistent files and on a sweep of single structural corruptions, in both directions (no miss, no false alarm).",
+         "of the freelist page, or listed free once. Tie: Tx.Check and the real `bbolt check` binary built from /repo (exit status) vs that verdict on consistent files and on a sweep of single structural corruptions, in both directions (no miss, no false alarm).",
          "The decoder's key-order verdict is proved to imply sortedness at every level and containment in the parent's range; its page-type verdict is exercised, not proved. Corrupt files that make the decoder's walk not end within 5 s count as corrupt.", "DESIGN.md §8 C19"),
  "C20": ("Layout: a meta rewritten with freelist=none and a fresh checksum validates and keeps every other field (abandon); with the older meta in both slots Open presents it (revert). Pager: the free list rebuilt "
          "by scanning is exactly free+pending = the unreachable pages (rebuild); the previous version's pages are intact directly after a commit (invariant). Tie: the CLI commands run in process after commits; "
